@@ -20,7 +20,7 @@ import ast
 import z3
 
 from pyvc import api, extract, symex
-from pyvc.api import SpecFn, Opaque, SeqVal, Z, Zb, simp, Outside
+from pyvc.api import SpecFn, Opaque, SeqVal, Z, Zb, simp, Outside, to_real
 from pyvc.symex import Contract, LoopSpec, Obj
 
 UTT = api.uf("utt_id", api.I, api.I)
@@ -294,9 +294,368 @@ def units(prop):
                       [("seed_given", setup_seed(True)), ("seed_absent", setup_seed(False))], "rtc.c10"))
         out.append(mk("getitem_seed", "command_line", "_FeatureProcessorDataset.__getitem__", sel_getitem_prefix, "seeding-prefix", contract_getitem,
                       [("full_map_index", setup_getitem(True))], "rtc.c10"))
+    full = [(f"ndim{nd}_pre{a}_post{b}_{'comp' if hc else 'nocomp'}_{'map' if wm else 'nomap'}", nd, a, b, hc, wm)
+            for nd in (1, 2) for (a, b) in ((0, 0), (2, 2)) for hc in (True, False) for wm in (True, False)]
+
+    def mk_full():
+        def unit(tier, known):
+            from pyvc.check import UnitResult as UR
+            u = UR("getitem_pipeline")
+            try:
+                fx = extract.get_function("command_line", "_FeatureProcessorDataset.__getitem__")
+            except KeyError as e:
+                u.outside.append(("command_line:_FeatureProcessorDataset.__getitem__", str(e)))
+                return u
+            u.functions.append(fx.describe())
+            for label, nd, a, b, hc, wm in full:
+                ex = symex.Executor(fx, contract_getitem_full(nd, a, b, hc, wm), prop)
+                ex.fname = "getitem_pipeline"
+                st = symex.State()
+                try:
+                    setup_getitem_full(nd, a, b, hc, wm)(ex, st)
+                    ex.run(st)
+                except symex.Outside as e:
+                    u.outside.append((fx.id + f"[{label}]", str(e)))
+                    continue
+                for o in ex.obligations + ex.canaries:
+                    o.id = o.id + f"[{label}]"
+                u.obligations += ex.obligations
+                u.canaries += ex.canaries
+                u.assumptions |= set(ex.assumption_ids)
+            u.replay_module = "rtc." + prop.lower()
+            u.to_case = _to_case_plan(u.replay_module)
+            return u
+        unit.__name__ = "getitem_pipeline"
+        return unit
+    out.append(mk_full())
     if prop == "C09":
+        out.append(mk("kaldi_loop", "command_line", "compute_feats_from_kaldi_tables", sel_kaldi_loop, "utterance-loop", contract_kaldi_loop,
+                      [(f"pre{a}_post{b}", setup_kaldi_loop(a, b)) for a, b in ((0, 0), (2, 2), (1, 0), (0, 1))], "rtc.c09"))
         out.append(mk("kaldi_seed", "command_line", "compute_feats_from_kaldi_tables", sel_if_mentions("options.seed"), "seed-selection", contract_kaldi_seed,
                       [("seed_given", setup_seed(True)), ("seed_absent", setup_seed(False))], "rtc.c09"))
         out.append(mk("torch_seed", "command_line", "signals_to_torch_feat_dir", sel_assign_or_if_seed, "seed-selection", contract_torch_seed,
                       [("seed_given", setup_seed(True)), ("seed_absent", setup_seed(False))], "rtc.c09"))
     return out
+
+
+# ---------------------------------------------------------------------------------------------- S5 the Kaldi tool's utterance loop
+# compute_feats_from_kaldi_tables, `for utt_id, (buff, samp_freq, duration) in list(wav_reader.items())` (term level):
+#   an utterance is skipped exactly when it is shorter than --min-duration, has another sampling rate than the bank, or --channel
+#   names a channel it does not have; otherwise exactly one table entry is written under its id, in input order, holding
+#       cast( POST_n(.. POST_1( COMPUTE_FULL( PRE_m(.. PRE_1( buff[channel] as float64 ..)) ) ..)) )
+#   where the post-processors are applied iff there is at least one frame, the channel is --channel (channel 0 when it is -1), the
+#   pre-processors are applied in order with in_place=True, and the cast to float32 happens iff Kaldi's base matrix is single precision;
+#   num_success counts the entries written.
+
+NCH = api.uf("num_channels", api.I, api.I)
+NFR = api.uf("num_frames", api.I, api.I)
+DUR = api.uf("duration", api.I, api.R)
+FRQ = api.uf("samp_freq", api.I, api.R)
+
+
+class WavBuf:
+    def __init__(self, j):
+        self.j = j
+
+    def sym_getattr(self, attr, ev, node):
+        if attr == "shape":
+            return (NCH(Z(self.j)), api.uf("num_samples", api.I, api.I)(Z(self.j)))
+        raise Outside(f"buffer attribute .{attr}")
+
+    def sym_getitem(self, sl, ev, node):
+        i = Z(ev.eval(sl))
+        n = NCH(Z(self.j))
+        ev.wd(z3.And(i >= -n, i < n), "channel_index", node)
+        return Term(("chan", self.j), chan=simp(z3.If(i < 0, i + n, i)))
+
+
+class Term:
+    """a value of the per-utterance pipeline: a nested tuple of what was applied, plus the (symbolic) channel it started from"""
+
+    def __init__(self, t, chan=None, frames=None):
+        self.t, self.chan, self.frames = t, chan, frames
+
+    def sym_len(self):
+        if self.frames is None:
+            raise Outside("len of a non-feature value")
+        return self.frames
+
+    def sym_getattr(self, attr, ev, node):
+        if attr == "astype":
+            def astype(ev2, args, kwargs, node2):
+                dt = args[0]
+                copy = kwargs.get("copy", True)
+                return Term(("astype", self.t, dt.term if isinstance(dt, Opaque) else dt, copy), self.chan, self.frames)
+            return symex.PyCallable(astype)
+        raise Outside(f"value attribute .{attr}")
+
+
+def sel_kaldi_loop(fn):
+    return [s for s in fn.body if isinstance(s, ast.For) and "wav_reader" in ast.unparse(s.iter)] + \
+           [s for s in fn.body if isinstance(s, ast.Return) and "num_success" in ast.unparse(s)]
+
+
+def setup_kaldi_loop(npre, npost):
+    def setup(ex, st):
+        m = api.sym("m")
+        st.assume(m >= 0)
+        rate = api.sym("rate", "real")
+        j0 = z3.Int("uj")
+        st.assume(z3.ForAll([j0], z3.And(NCH(j0) >= 1, NFR(j0) >= 0), patterns=[NCH(j0)]))
+        st.assume(z3.ForAll([j0], z3.And(NCH(j0) >= 1, NFR(j0) >= 0), patterns=[NFR(j0)]))
+        api.mk_obj(st, "options", "Options", {"min_duration": api.sym("min_duration", "real"), "channel": api.sym("channel")})
+        st.assume(Z(st.fields[("options", "channel")]) >= -1)
+        bank = api.mk_obj(st, "bank", "Bank", {"sampling_rate": rate})
+        api.mk_obj(st, "computer", "Computer", {"bank": bank})
+        api.mk_obj(st, "wav_reader", "Reader", {})
+        api.mk_obj(st, "feat_writer", "Writer", {})
+        st.env["preprocessors"] = [api.mk_obj(st, f"pre{k}", "Pre", {"k": k}) for k in range(npre)]
+        st.env["postprocessors"] = [api.mk_obj(st, f"post{k}", "Post", {"k": k}) for k in range(npost)]
+        st.env["num_utts"], st.env["num_success"] = 0, 0
+        st.ghost.update(written=0, last=-1, m=m)
+        ex.ctx = dict(m=m, npre=npre, npost=npost, rate=rate, is_double=api.sym("kaldi_base_matrix_is_double", "bool"))
+        ex.notes_seen = set()
+    return setup
+
+
+def _skip(ex, st, j):
+    ch = Z(st.fields[("options", "channel")])
+    return z3.Or(DUR(j) < to_real(st.fields[("options", "min_duration")]), FRQ(j) != ex.ctx["rate"], ch >= NCH(j))
+
+
+def h_items(ex, st, o, args, kwargs, node, ev):
+    return SeqVal(ex.ctx["m"], lambda j: (Opaque(("utt", simp(Z(j))), "str"), (WavBuf(simp(Z(j))), FRQ(Z(j)), DUR(Z(j)))))
+
+
+def h_pre_apply(ex, st, o, args, kwargs, node, ev):
+    (x,) = args
+    if not isinstance(x, Term):
+        raise Outside("pre-processor input")
+    lbl = f"L{node.lineno - ex.fx.lineno}"
+    ex.oblige(st, kwargs.get("in_place") is True, f"preprocessors_work_in_place.{lbl}", "spec", node.lineno)
+    return Term(("pre", st.fields[(o.oid, "k")], x.t), x.chan)
+
+
+def h_compute_full(ex, st, o, args, kwargs, node, ev):
+    (x,) = args
+    if not isinstance(x, Term):
+        raise Outside("computer input")
+    j = Z(st.env["__zi"])
+    st.assume(NFR(j) >= 0)
+    return Term(("feats", x.t), x.chan, frames=NFR(j))
+
+
+def h_post_apply(ex, st, o, args, kwargs, node, ev):
+    (x,) = args
+    if not isinstance(x, Term) or kwargs:
+        raise Outside("post-processor call form")
+    return Term(("post", st.fields[(o.oid, "k")], x.t), x.chan, frames=x.frames)
+
+
+def _expected_term(ex, j, posts_applied, f32):
+    t = ("astype", ("chan", j), "float64", False)
+    for k in range(ex.ctx["npre"]):
+        t = ("pre", k, t)
+    t = ("feats", t)
+    if posts_applied:
+        for k in range(ex.ctx["npost"]):
+            t = ("post", k, t)
+    if f32:
+        t = ("astype", t, "float32", True)
+    return t
+
+
+def _term_eq(a, b):
+    """equality of two pipeline terms as a z3 formula: same shape, equal leaves (symbolic leaves compared by the solver)"""
+    if isinstance(a, tuple) and isinstance(b, tuple):
+        if len(a) != len(b):
+            return z3.BoolVal(False)
+        parts = [_term_eq(x, y) for x, y in zip(a, b)]
+        return z3.And(*parts) if parts else z3.BoolVal(True)
+    if isinstance(a, tuple) or isinstance(b, tuple):
+        return z3.BoolVal(False)
+    if symex.is_z3(a) or symex.is_z3(b):
+        try:
+            return Z(a) == Z(b)
+        except Exception:
+            return z3.BoolVal(False)
+    return z3.BoolVal(a == b)
+
+
+def h_write(ex, st, o, args, kwargs, node, ev):
+    key, val = args
+    lbl = f"L{node.lineno - ex.fx.lineno}"
+    j = Z(st.env["__zi"])
+    if not isinstance(val, Term):
+        raise Outside("written value")
+    ex.oblige(st, _term_eq(key.term, ("utt", simp(j))) if isinstance(key, Opaque) else False, f"written_under_its_own_id.{lbl}", "trace", node.lineno)
+    ex.oblige(st, z3.Not(_skip(ex, st, j)), f"skipped_utterances_are_not_written.{lbl}", "trace", node.lineno)
+    ex.oblige(st, Z(st.ghost["last"]) < j, f"once_and_in_input_order.{lbl}", "trace", node.lineno)
+    ch = Z(st.fields[("options", "channel")])
+    ex.oblige(st, Z(val.chan) == z3.If(ch == -1, 0, ch), f"channel_is_the_requested_one_or_0.{lbl}", "trace", node.lineno)
+    # the pipeline term the statement specifies, by cases on "at least one frame" and on Kaldi's base precision
+    cases = []
+    for has_frames in (True, False):
+        for dbl in (True, False):
+            cond = z3.And((NFR(j) > 0) if has_frames else (NFR(j) <= 0), Zb(ex.ctx["is_double"]) if dbl else z3.Not(Zb(ex.ctx["is_double"])))
+            cases.append(z3.And(cond, _term_eq(val.t, _expected_term(ex, simp(j), has_frames, not dbl))))
+    ex.oblige(st, z3.Or(*cases), f"stored_value_is_the_configured_pipeline.{lbl}", "trace", node.lineno)
+    st.ghost["last"] = j
+    st.ghost["written"] = simp(Z(st.ghost["written"]) + 1)
+    ex.assumption_ids.update(["A-IO-CONTAINER"])
+    return None
+
+
+def h_on_continue(ex, st, node):
+    j = Z(st.env["__zi"])
+    ex.oblige(st, _skip(ex, st, j), f"only_the_documented_skips.L{node.lineno - ex.fx.lineno}", "trace", node.lineno)
+
+
+def _noop(ex, st, o, args, kwargs, node, ev):
+    return None
+
+
+def _kaldi_attr_any(ex, st, o, name, node, ev):
+    if isinstance(o, Opaque) and o.kind == "enum" and name == "BaseMatrix":
+        return Opaque("BaseMatrix", "enum")
+    if isinstance(o, Opaque) and o.kind == "enum" and name == "is_double":
+        return ex.ctx["is_double"]
+    return NotImplemented
+
+
+def contract_kaldi_loop():
+    return Contract(
+        target="command_line:compute_feats_from_kaldi_tables", uses=["A-PYSEM", "A-IO-CONTAINER"],
+        consts={"np.float64": Opaque("float64", "dtype"), "np.float32": Opaque("float32", "dtype"),
+                "KaldiDataType.BaseMatrix.is_double": SpecFn(lambda ev: ev.ex.ctx["is_double"]), "ISLIST": SpecFn(lambda ev, a: True),
+                "logger": Opaque("logger", "logger"), "KaldiDataType": Opaque("KaldiDataType", "enum")},
+        handlers={"Reader.items": h_items, "Pre.apply": h_pre_apply, "Computer.compute_full": h_compute_full, "Post.apply": h_post_apply,
+                  "Writer.write": h_write, "on_continue": h_on_continue,
+                  "opaque.warn": _noop, "opaque.warning": _noop, "opaque.info": _noop, "opaque.log": _noop, "opaque.error": _noop,
+                  "attr_any": _kaldi_attr_any},
+        loops={0: LoopSpec(kind="for", modifies_ghost=["written", "last"], invariant=[
+            ("counts", "num_utts == __zi and num_success == written and last < __zi and 0 <= written <= __zi")])},
+        ensures=[("exit_status_zero_iff_something_written", "result == ite(written >= 1, 0, 1)")],
+    )
+
+
+# ---------------------------------------------------------------------------------------------- S6 the torch tool's per-utterance pipeline
+# _FeatureProcessorDataset.__getitem__ (whole body, term level): item idx is (utt_id, float32( POST_n(.. POST_1( COMPUTER( PRE_m(..
+# PRE_1( from_numpy( read_signal(path, float64, force_as, key=utt_id)[channel] ) ..)) ) ..)) )) with the RNG seeded by seed + the
+# utterance's position in the full map BEFORE anything else; ValueError exactly when --channel is unset for a multi-channel signal,
+# set for a 1-D signal, or too large; a missing computer passes the signal on as a one-column matrix; the dataset object is not assigned.
+
+
+class SigVal:
+    def __init__(self, t, ndim, nchan):
+        self.t, self.ndim, self.nchan = t, ndim, nchan
+
+    def sym_getattr(self, attr, ev, node):
+        if attr == "ndim":
+            return self.ndim
+        if attr == "shape":
+            return (self.nchan, Opaque("S", "int")) if self.ndim == 2 else (api.sym("S"),)
+        if attr == "unsqueeze":
+            return symex.PyCallable(lambda ev2, a, k, n2: SigVal(("unsqueeze", self.t, a[0]), 2, None))
+        if attr == "float":
+            return symex.PyCallable(lambda ev2, a, k, n2: SigVal(("float", self.t), self.ndim, self.nchan))
+        raise Outside(f"signal attribute .{attr}")
+
+    def sym_getitem(self, sl, ev, node):
+        i = Z(ev.eval(sl))
+        ev.wd(z3.And(i >= -Z(self.nchan), i < Z(self.nchan)), "channel_index", node)
+        return SigVal(("chan", self.t, simp(z3.If(i < 0, i + Z(self.nchan), i))), 1, None)
+
+
+def setup_getitem_full(ndim, npre, npost, has_computer, with_map):
+    def setup(ex, st):
+        idx, seed, chan, nchan, m = api.sym("idx"), api.sym("seed"), api.sym("channel"), api.sym("nchan"), api.sym("m")
+        st.assume(z3.And(idx >= 0, idx < m, chan >= -1, nchan >= 1, api.sym("S") >= 0))      # S: a length
+
+        def proc(kind, k):
+            return symex.PyCallable(lambda ev, a, kw, n: SigVal((kind, k, a[0].t), a[0].ndim, a[0].nchan) if len(a) == 1 and isinstance(a[0], SigVal) and not kw
+                                    else (_ for _ in ()).throw(Outside("processor call form")))
+        comp = proc("computer", 0) if has_computer else None
+        utt2idx = SeqVal(m, lambda u: IDX(Z(u))) if with_map else None
+        api.mk_obj(st, "self", "Dataset", {
+            "utt_path": SeqVal(m, lambda j: (UTT(Z(j)), Opaque(("path", simp(Z(j))), "str"))),
+            "preprocessors": [proc("pre", k) for k in range(npre)], "postprocessors": [proc("post", k) for k in range(npost)],
+            "computer": comp, "channel": chan, "force_as": Opaque("FORCE_AS", "str"), "seed": seed, "utt2idx": _Utt2Idx() if with_map else None})
+        st.env["idx"] = idx
+        st.ghost.update(seeded=[], reads=[], rng_touched=False)
+        ex.ctx = dict(idx=idx, seed=seed, chan=chan, nchan=nchan, ndim=ndim, npre=npre, npost=npost, has_computer=has_computer, with_map=with_map)
+    return setup
+
+
+class _Utt2Idx:
+    def sym_getitem(self, sl, ev, node):
+        return IDX(Z(ev.eval(sl)))
+
+
+def h_manual_seed_full(ex, st, args, kwargs, node, ev):
+    lbl = f"L{node.lineno - ex.fx.lineno}"
+    ex.oblige(st, not st.ghost["reads"], f"seeded_before_anything_else.{lbl}", "trace", node.lineno)
+    st.ghost["seeded"] = st.ghost["seeded"] + [args[0]]
+    return None
+
+
+def h_read_signal_full(ex, st, args, kwargs, node, ev):
+    lbl = f"L{node.lineno - ex.fx.lineno}"
+    idx = ex.ctx["idx"]
+    ok = len(args) == 1 and isinstance(args[0], Opaque) and set(kwargs) == {"dtype", "force_as", "key"}
+    ex.oblige(st, ok, f"read_signal_called_with_path_dtype_force_as_key.{lbl}", "trace", node.lineno)
+    if ok:
+        ex.oblige(st, _term_eq(args[0].term, ("path", simp(idx))), f"reads_this_utterances_path.{lbl}", "trace", node.lineno)
+        ex.oblige(st, isinstance(kwargs["dtype"], Opaque) and kwargs["dtype"].term == "float64", f"reads_as_float64.{lbl}", "trace", node.lineno)
+        ex.oblige(st, kwargs["force_as"] is st.fields[("self", "force_as")], f"passes_force_as.{lbl}", "trace", node.lineno)
+        ex.oblige(st, Z(kwargs["key"]) == UTT(idx) if symex.is_z3(kwargs["key"]) else False, f"key_is_the_utterance_id.{lbl}", "trace", node.lineno)
+    st.ghost["reads"] = st.ghost["reads"] + [1]
+    return SigVal(("signal", simp(idx)), ex.ctx["ndim"], ex.ctx["nchan"] if ex.ctx["ndim"] == 2 else None)
+
+
+def h_from_numpy(ex, st, args, kwargs, node, ev):
+    (x,) = args
+    return SigVal(("from_numpy", x.t), x.ndim, x.nchan)
+
+
+def contract_getitem_full(ndim, npre, npost, has_computer, with_map):
+    def expected(ev):
+        ex = ev.ex
+        idx, chan = ex.ctx["idx"], ex.ctx["chan"]
+        t = ("signal", simp(idx))
+        if ndim == 2:
+            t = ("chan", t, simp(z3.If(chan < 0, chan + ex.ctx["nchan"], chan)))
+        t = ("from_numpy", t)
+        for k in range(npre):
+            t = ("pre", k, t)
+        t = ("computer", 0, t) if has_computer else ("unsqueeze", t, 1)
+        for k in range(npost):
+            t = ("post", k, t)
+        return ("float", t)
+
+    def result_ok(ev, res):
+        if not (isinstance(res, tuple) and len(res) == 2 and isinstance(res[1], SigVal)):
+            return z3.BoolVal(False)
+        return z3.And(Z(res[0]) == UTT(ev.ex.ctx["idx"]) if symex.is_z3(res[0]) else z3.BoolVal(False), _term_eq(res[1].t, expected(ev)))
+
+    def seeded_ok(ev):
+        s = ev.st.ghost["seeded"]
+        if len(s) != 1:
+            return z3.BoolVal(False)
+        pos = IDX(UTT(ev.ex.ctx["idx"])) if with_map else ev.ex.ctx["idx"]
+        return Z(s[0]) == ev.ex.ctx["seed"] + pos
+
+    if ndim == 1:
+        bad = "self.channel != -1"
+    else:
+        bad = "(self.channel == -1 and NCHAN() > 1) or self.channel >= NCHAN()"
+    c = Contract(
+        target="command_line:_FeatureProcessorDataset.__getitem__", uses=["A-PYSEM", "A-TORCH", "A-IO-CONTAINER"],
+        consts={"np.float64": Opaque("float64", "dtype"), "RESULT_OK": SpecFn(result_ok), "SEEDED_OK": SpecFn(seeded_ok),
+                "NCHAN": SpecFn(lambda ev: ev.ex.ctx["nchan"]), "FIELD_WRITES": SpecFn(lambda ev: len([w for w in ev.st.writes if w and w[0] == "field"]))},
+        handlers={"torch.manual_seed": h_manual_seed_full, "read_signal": h_read_signal_full, "torch.from_numpy": h_from_numpy},
+        raises={"ValueError": bad},
+        ensures=[("item_is_id_and_the_configured_pipeline", "RESULT_OK(result)"), ("seed_is_base_plus_position_in_full_map", "SEEDED_OK()"),
+                 ("dataset_not_assigned", "FIELD_WRITES() == 0")],
+    )
+    return c
